@@ -1018,7 +1018,7 @@ def sheet_streams(ctx):
         return nt
 
     # ---- (1) one ContentIndexParser per workbook: histories of parse_all / render
-    wbs = W.directed_wbs() if ctx.scale == 1 else []
+    wbs = W.directed_wbs() if ctx.scale < 10 else []      # small and cheap: also on the scale-3 pass of a drifted tree
     ctx.stats["wb_directed"] = len(wbs)
     for i in range(n_wb):
         wbs.append(W.gen_wb(rng, malformed=(rng.random() < 0.3), big=(thorough and i % 10 == 0)))
